@@ -154,3 +154,230 @@ theorem applyPlace_slot (hz : Bool) (vw vh s e : Int) (old : ViewPort) (hv : old
     refine ⟨?_, ?_, ?_, ?_⟩ <;> (repeat' split) <;> omega
 
 end Tcell.Views
+
+namespace Tcell.Views
+open LayoutNum
+
+/-! ### the largest-remainder pass, any number type -/
+
+section generic
+variable {F : Type} [LayoutNum F]
+
+def psum (cs : List (PCell F)) : Int := sumInt (cs.map (·.pad))
+
+theorem bestFrom_bound : ∀ (cs : List (PCell F)) (i : Nat) (b : Option (Nat × F)),
+    (∀ k bf, b = some (k, bf) → k < i + cs.length) →
+    ∀ k bf, bestFrom cs i b = some (k, bf) → k < i + cs.length
+  | [], i, b, hb => by simpa [bestFrom] using hb
+  | c :: cs, i, b, hb => by
+    have step : ∀ b', (∀ k bf, b' = some (k, bf) → k < (i + 1) + cs.length) →
+        ∀ k bf, bestFrom cs (i + 1) b' = some (k, bf) → k < i + (c :: cs).length := by
+      intro b' hb' k bf h
+      have := bestFrom_bound cs (i + 1) b' hb' k bf h
+      simp; omega
+    have hb1 : ∀ k bf, b = some (k, bf) → k < (i + 1) + cs.length := by
+      intro k bf h; have := hb k bf h; simp at this; omega
+    have hnew : ∀ k bf, (some (i, c.frac) : Option (Nat × F)) = some (k, bf) → k < (i + 1) + cs.length := by
+      intro k bf h; simp at h; omega
+    unfold bestFrom
+    split
+    · exact step b hb1
+    · cases b with
+      | none => exact step _ hnew
+      | some p =>
+        obtain ⟨k0, bf0⟩ := p
+        simp only
+        split
+        · exact step _ hnew
+        · exact step _ hb1
+
+theorem bestFrom_isSome : ∀ (cs : List (PCell F)) (i : Nat) (b : Option (Nat × F)),
+    (b.isSome = true ∨ ∃ c ∈ cs, eq c.fill (zero : F) = false) → (bestFrom cs i b).isSome = true
+  | [], i, b, h => by
+    rcases h with h | ⟨c, hc, _⟩
+    · simpa [bestFrom] using h
+    · simp at hc
+  | c :: cs, i, b, h => by
+    unfold bestFrom
+    split
+    · rename_i hz
+      apply bestFrom_isSome cs (i + 1) b
+      rcases h with h | ⟨c', hc', hne⟩
+      · exact Or.inl h
+      · rcases List.mem_cons.1 hc' with rfl | hm
+        · simp [hz] at hne
+        · exact Or.inr ⟨c', hm, hne⟩
+    · cases b with
+      | none => exact bestFrom_isSome cs (i + 1) _ (Or.inl rfl)
+      | some p =>
+        obtain ⟨k0, bf0⟩ := p
+        simp only
+        split
+        · exact bestFrom_isSome cs (i + 1) _ (Or.inl rfl)
+        · exact bestFrom_isSome cs (i + 1) _ (Or.inl rfl)
+
+/-- the nil dereference of boxlayout.go:89 cannot happen while some cell has a non-zero fill factor -/
+theorem best_some (cs : List (PCell F)) (h : ∃ c ∈ cs, eq c.fill (zero : F) = false) :
+    ∃ i, best cs = some i ∧ i < cs.length := by
+  have h1 := bestFrom_isSome cs 0 none (Or.inr h)
+  cases hb : bestFrom cs 0 none with
+  | none => simp [hb] at h1
+  | some p =>
+    obtain ⟨k, bf⟩ := p
+    have := bestFrom_bound cs 0 none (by simp) k bf hb
+    exact ⟨k, by simp [best, hb], by simpa using this⟩
+
+theorem bump_length (cs : List (PCell F)) (i : Nat) : (bump cs i).length = cs.length := by simp [bump]
+
+theorem bump_fills (cs : List (PCell F)) (i : Nat) : (bump cs i).map (·.fill) = cs.map (·.fill) := by
+  apply List.ext_getElem?
+  intro j
+  simp only [bump, List.getElem?_map, List.getElem?_modify]
+  cases cs[j]? with
+  | none => simp
+  | some c => by_cases h : i = j <;> simp [h]
+
+theorem psum_bump : ∀ (cs : List (PCell F)) (i : Nat), i < cs.length → psum (bump cs i) = psum cs + 1
+  | [], i, h => by simp at h
+  | c :: cs, 0, _ => by simp [bump, psum]; omega
+  | c :: cs, i + 1, h => by
+    have := psum_bump cs i (by simpa using h)
+    simp [bump, psum] at this ⊢; omega
+
+/-- pads only grow in the pass, position by position -/
+theorem bump_pad_ge (cs : List (PCell F)) (i j : Nat) (c' : PCell F) (h : (bump cs i)[j]? = some c') :
+    ∃ c, cs[j]? = some c ∧ c.pad ≤ c'.pad ∧ c'.pad ≤ c.pad + 1 ∧ c'.fill = c.fill := by
+  simp only [bump, List.getElem?_modify] at h
+  cases hc : cs[j]? with
+  | none => simp [hc] at h
+  | some c =>
+    simp [hc] at h
+    refine ⟨c, rfl, ?_⟩
+    by_cases hij : i = j <;> simp [hij] at h <;> subst h <;> simp <;> omega
+
+theorem distribute_spec : ∀ (n : Nat) (cs : List (PCell F)), (∃ c ∈ cs, eq c.fill (zero : F) = false) →
+    (distribute n cs).length = cs.length ∧ psum (distribute n cs) = psum cs + n ∧
+    (distribute n cs).map (·.fill) = cs.map (·.fill) ∧
+    ∀ (j : Nat) (c' : PCell F), (distribute n cs)[j]? = some c' → ∃ c : PCell F, cs[j]? = some c ∧ c.pad ≤ c'.pad
+  | 0, cs, _ => by simp [distribute]; intro j c' h; exact ⟨c', h, Int.le_refl _⟩
+  | n + 1, cs, h => by
+    obtain ⟨i, hi, hlt⟩ := best_some cs h
+    have hf := bump_fills cs i
+    have h' : ∃ c ∈ bump cs i, eq c.fill (zero : F) = false := by
+      obtain ⟨c, hc, hne⟩ := h
+      have : c.fill ∈ (bump cs i).map (·.fill) := by rw [hf]; exact List.mem_map_of_mem hc
+      obtain ⟨c2, hc2, e⟩ := List.mem_map.1 this
+      exact ⟨c2, hc2, by rw [e]; exact hne⟩
+    obtain ⟨a, b, c, d⟩ := distribute_spec n (bump cs i) h'
+    simp only [distribute, hi]
+    refine ⟨by rw [a, bump_length], by rw [b, psum_bump cs i hlt]; omega, by rw [c, hf], ?_⟩
+    intro j c' hj
+    obtain ⟨c1, hc1, hle⟩ := d j c' hj
+    obtain ⟨c0, hc0, hle0, _, _⟩ := bump_pad_ge cs i j c1 hc1
+    exact ⟨c0, hc0, by omega⟩
+
+theorem distribute_zero (cs : List (PCell F)) : distribute 0 cs = cs := rfl
+
+end generic
+end Tcell.Views
+
+namespace Tcell.Views
+open LayoutNum
+
+/-! ### exact arithmetic (`Rat`) -/
+
+/-- the exact proportional share of a cell -/
+def share (extra : Int) (totf f : Rat) : Rat := (extra : Rat) * f / totf
+
+theorem ratTrunc_eq_floor (q : Rat) (h : 0 ≤ q) : ratTrunc q = q.floor := by
+  rw [ratTrunc, Rat.floor_def, Int.tdiv_eq_ediv_of_nonneg (Rat.num_nonneg.2 h)]
+
+/-- **the floor property of the number type** the layout theorems rest on, proved for `Rat`: truncation of a
+non-negative value is the integer part, `trunc q ≤ q < trunc q + 1` -/
+theorem ratTrunc_floor_prop (q : Rat) (h : 0 ≤ q) :
+    ((ratTrunc q : Int) : Rat) ≤ q ∧ q < ((ratTrunc q + 1 : Int) : Rat) := by
+  rw [ratTrunc_eq_floor q h]; exact ⟨Rat.floor_le q, Rat.lt_floor_add_one q⟩
+
+theorem share_nonneg (extra : Int) (totf f : Rat) (he : 0 ≤ extra) (ht : 0 < totf) (hf : 0 ≤ f) :
+    0 ≤ share extra totf f := by
+  unfold share
+  rw [Rat.div_def]
+  exact Rat.mul_nonneg (Rat.mul_nonneg (Rat.intCast_nonneg.2 he) hf) (Rat.le_of_lt (Rat.inv_pos.2 ht))
+
+theorem share_zero (extra : Int) (totf : Rat) : share extra totf 0 = 0 := by
+  simp [share, Rat.div_def, Rat.mul_zero, Rat.zero_mul]
+
+theorem shareCell_zero (extra : Int) (totf : Rat) :
+    (shareCell extra totf (0 : Rat)).pad = 0 ∧ (shareCell extra totf (0 : Rat)).fill = 0 := by
+  have : (LayoutNum.gt (0 : Rat) (LayoutNum.zero : Rat)) = false := by
+    show decide ((0 : Rat) > 0) = false; simp
+  simp [shareCell, this]
+
+theorem shareCell_spec (extra : Int) (totf f : Rat) (he : 0 ≤ extra) (ht : 0 < totf) (hf : 0 ≤ f) :
+    (shareCell extra totf f).pad = (share extra totf f).floor ∧ (shareCell extra totf f).fill = f := by
+  unfold shareCell
+  by_cases hp : f > 0
+  · have : (LayoutNum.gt f (LayoutNum.zero : Rat)) = true := by
+      show decide (f > 0) = true; simpa using hp
+    simp only [this, if_true, and_true]
+    show ratTrunc (share extra totf f) = _
+    exact ratTrunc_eq_floor _ (share_nonneg extra totf f he ht hf)
+  · have : (LayoutNum.gt f (LayoutNum.zero : Rat)) = false := by
+      show decide (f > 0) = false; simpa using hp
+    have hf0 : f = 0 := by grind
+    subst hf0
+    have h0 := shareCell_zero extra totf
+    unfold shareCell at h0
+    rw [share_zero]
+    exact ⟨h0.1.trans (Rat.floor_intCast 0).symm, h0.2⟩
+
+theorem foldl_add_eq (fs : List Rat) : ∀ a : Rat, fs.foldl (fun (a : Rat) f => LayoutNum.add a f) a = a + fs.sum := by
+  induction fs with
+  | nil => intro a; simp only [List.foldl_nil, List.sum_nil]; grind
+  | cons f fs ih =>
+    intro a
+    simp only [List.foldl_cons, List.sum_cons, ih]
+    show (a + f) + fs.sum = a + (f + fs.sum)
+    grind
+
+theorem totFill_eq_sum (fs : List Rat) : totFill fs = fs.sum := by
+  unfold totFill
+  rw [foldl_add_eq]
+  show (0 : Rat) + fs.sum = fs.sum
+  grind
+
+theorem sum_nonneg_rat : ∀ (fs : List Rat), (∀ f ∈ fs, 0 ≤ f) → 0 ≤ fs.sum
+  | [], _ => by simp
+  | f :: fs, h => by
+    have h1 := h f List.mem_cons_self
+    have h2 := sum_nonneg_rat fs (fun g hg => h g (List.mem_cons_of_mem _ hg))
+    simp only [List.sum_cons]; grind
+
+theorem sum_pos_rat : ∀ (fs : List Rat), (∀ f ∈ fs, 0 ≤ f) → (∃ f ∈ fs, 0 < f) → 0 < fs.sum
+  | [], _, h => by obtain ⟨f, hf, _⟩ := h; simp at hf
+  | f :: fs, h, hp => by
+    have h1 := h f List.mem_cons_self
+    have h2 := sum_nonneg_rat fs (fun g hg => h g (List.mem_cons_of_mem _ hg))
+    simp only [List.sum_cons]
+    obtain ⟨g, hg, hg0⟩ := hp
+    rcases List.mem_cons.1 hg with rfl | hm
+    · grind
+    · have := sum_pos_rat fs (fun g hg => h g (List.mem_cons_of_mem _ hg)) ⟨g, hm, hg0⟩
+      grind
+
+theorem sum_shares (extra : Int) (t : Rat) : ∀ (fs : List Rat),
+    (fs.map (share extra t)).sum = (extra : Rat) * fs.sum / t
+  | [] => by simp [Rat.div_def, Rat.mul_zero, Rat.zero_mul]
+  | f :: fs => by
+    simp only [List.map_cons, List.sum_cons, sum_shares extra t fs, share, Rat.div_def]
+    grind
+
+theorem floors_le_sum : ∀ (l : List Rat), ((sumInt (l.map Rat.floor) : Int) : Rat) ≤ l.sum
+  | [] => by simp [sumInt]
+  | q :: l => by
+    have := floors_le_sum l
+    have h := Rat.floor_le q
+    simp only [List.map_cons, sumInt_cons, Rat.intCast_add, List.sum_cons]
+    grind
+
+end Tcell.Views
